@@ -1,0 +1,14 @@
+//go:build verif
+
+package dcs
+
+import "github.com/go-zookeeper/zk"
+
+// VerifZKConnect, when set (build tag "verif" only), replaces the zk.Connect call of
+// NewZookeeper so that a test harness can supply its own dialer and host provider.
+// Everything else in NewZookeeper (retry, auth, zkDCS construction, event loop) is unchanged.
+var VerifZKConnect func(config *ZookeeperConfig, logger zk.Logger) (*zk.Conn, <-chan zk.Event, error)
+
+func verifZKConnect() func(config *ZookeeperConfig, logger zk.Logger) (*zk.Conn, <-chan zk.Event, error) {
+	return VerifZKConnect
+}
